@@ -206,6 +206,9 @@ fn degenerate(cx: &mut Cx) {
         ("from_words(empty)", Box::new(|| BoxedUint::from_words(Vec::<u64>::new()))),
         ("From<&[Limb]>(empty)", Box::new(|| BoxedUint::from(&[] as &[Limb]))),
         ("From<Vec<Limb>>(empty)", Box::new(|| BoxedUint::from(Vec::<Limb>::new()))),
+        ("From<Box<[Limb]>>(empty)", Box::new(|| BoxedUint::from(Vec::<Limb>::new().into_boxed_slice()))),
+        ("From<Vec<Word>>(empty)", Box::new(|| BoxedUint::from(Vec::<u64>::new()))),
+        ("widen(0).shorten(0)", Box::new(|| BoxedUint::zero().shorten(0))),
         ("from_str_radix_vartime(0)", Box::new(|| BoxedUint::from_str_radix_vartime("0", 10).unwrap())),
         ("from_be_slice(empty,0)", Box::new(|| BoxedUint::from_be_slice(&[], 0).unwrap())),
         ("from_le_slice(empty,0)", Box::new(|| BoxedUint::from_le_slice(&[], 0).unwrap())),
